@@ -16,7 +16,7 @@ import proxcalc_gen as G
 from common import ModelErr, b2f, b2fs, f2b, fs2b
 
 PROP = "C08"
-CLAIMED = False
+CLAIMED = True
 ENGINE = "ProxCalc"
 DESIGN_REF = "DESIGN.md §5.2"
 TECHNIQUE = (
@@ -173,8 +173,10 @@ def _oracle(scico):
                 return {"what": "f(x) differs from the documented formula", "impl": ev[1], "formula": want}
         except G.NotAvail:
             pass
-        # prox: minimiser of the documented objective?
-        if pr[0] == "ok" and bool(obj.has_prox):
+        # prox: minimiser of the documented objective?  (flag set: it must be; flag clear: if it nevertheless is one
+        # for this input although nothing in the tree has a non-positive scale, the flag is not truthful)
+        judge_clear = (not bool(obj.has_prox)) and not info.patterns
+        if pr[0] == "ok" and (bool(obj.has_prox) or judge_clear):
             try:
                 vb = _blocks_of(case, case["v"])
                 pb = _split_flat(case, pr[1])
@@ -186,9 +188,16 @@ def _oracle(scico):
                 for eps in (1e-1, 1e-2, 1e-3):
                     for _ in range(8):
                         cands.append(("perturbation", [p + eps * (rng.standard_normal(p.shape) + (1j * rng.standard_normal(p.shape) if cplx else 0)) for p in pb]))
-                for name, cb in cands:
-                    val = _np_obj(case, lam, vb, cb)
-                    if np.isfinite(val) and (not np.isfinite(base) or val < base - 1e-7 * (1 + abs(base))):
+                better = [(name, cb, _np_obj(case, lam, vb, cb)) for name, cb in cands]
+                better = [(n_, cb, val) for n_, cb, val in better
+                          if np.isfinite(val) and (not np.isfinite(base) or val < base - 1e-7 * (1 + abs(base)))]
+                if judge_clear:
+                    if not better and np.isfinite(base):
+                        return {"what": "has_prox is False but prox returns a minimiser of lam*F(x)+0.5||x-v||^2 (operation available and correct)",
+                                "objective_at_prox": base, "v": case["v"], "lam": lam}
+                    better = []
+                for name, cb, val in better:
+                    if True:
                         return {"what": "prox output is not a minimiser of lam*F(x)+0.5||x-v||^2", "competitor": name,
                                 "objective_at_prox": base, "objective_at_competitor": val, "v": case["v"], "lam": lam,
                                 "competitor_point": [np.asarray(G.il(c, cplx)).tolist() for c in cb]}
@@ -398,6 +407,30 @@ def gen_sql2_case(ctx):
     case["scale"] = f2b(G.pos_dyadic(rng))
     case["lam"] = f2b(G.pos_dyadic(rng))
     case["tight"] = bool(rng.integers(2))
+    # after the first use: rescale (c*L, L/c, set_scale) and ask again (stale caches)
+    case["rescale"] = [["mul", "div", "setscale"][int(rng.integers(3))], f2b(G.pos_dyadic(rng))]
+    return case
+
+
+def gen_sql2_small_case(ctx):
+    """CG branch with data of small magnitude (2^-20) and a larger, moderately ill-conditioned system: the relative
+    stopping rule `norm(r) <= tol * norm(b)` must hold at the returned point"""
+    rng = ctx.rng
+    cplx = bool(rng.integers(2))
+    n = int(rng.integers(4, 9))
+    m = int(rng.integers(n, n + 3))
+    kind = "mat"
+    case = {"cplx": cplx, "kind": kind, "n": n, "m": m}
+    case["M"] = [fs2b(G.il(r, cplx)) for r in G.dy(rng, (m, n), cplx, bits=1, scale=3.0)]
+    case["w"] = None if rng.random() < 0.5 else fs2b(rng.integers(0, 9, size=m).astype(np.float64) / 2)
+    sc = 2.0 ** -20
+    case["y"] = fs2b(G.il(G.dy(rng, (m,), cplx), cplx) * sc)
+    case["v"] = fs2b(G.il(G.dy(rng, (n,), cplx), cplx) * sc)
+    case["scale"] = f2b(G.pos_dyadic(rng))
+    case["lam"] = f2b(G.pos_dyadic(rng, hi=8.0))
+    case["tight"] = False
+    case["small"] = True
+    case["rescale"] = [["mul", "div", "setscale"][int(rng.integers(3))], f2b(G.pos_dyadic(rng))]
     return case
 
 
@@ -447,10 +480,32 @@ def _sql2_oracle(scico):
         tol = 1e-11 if case["tight"] else 1e-5
         exact = case["kind"] in ("ident", "sid", "diag")
         res = np.linalg.norm(lhs @ x - rhs)
-        bound = (1e-9 if exact else 20 * tol) * (1 + np.linalg.norm(rhs))
+        nr = np.linalg.norm(rhs)
+        bound = 1e-9 * (1 + nr) if exact else 3 * tol * nr + 1e-13 * (1 + nr)
         if res > bound:
-            return {"what": "SquaredL2Loss.prox does not solve (I+2 a lam A^H W A)x = v+2 a lam A^H W y", "residual": float(res),
-                    "bound": float(bound), "x": G.il(x, cplx).tolist(), "solution": G.il(xs, cplx).tolist()}
+            return {"what": "SquaredL2Loss.prox does not solve (I+2 a lam A^H W A)x = v+2 a lam A^H W y to the configured tolerance",
+                    "residual": float(res), "bound": float(bound), "x": G.il(x, cplx).tolist(), "solution": G.il(xs, cplx).tolist()}
+        if case.get("rescale"):
+            how, cb = case["rescale"]
+            c_ = b2f(cb)
+            if how == "mul":
+                L2, s2 = c_ * L, b2f(case["scale"]) * c_
+            elif how == "div":
+                L2, s2 = L / c_, b2f(case["scale"]) / c_
+            else:
+                L.set_scale(c_)
+                L2, s2 = L, c_
+            c2 = 2 * s2 * b2f(case["lam"])
+            lhs2 = np.eye(n) + c2 * Ad.conj().T @ (w[:, None] * Ad)
+            rhs2 = v + c2 * Ad.conj().T @ (w * y)
+            x2 = np.asarray(L2.prox(snp.array(v), b2f(case["lam"])))
+            res2 = np.linalg.norm(lhs2 @ x2 - rhs2)
+            nr2 = np.linalg.norm(rhs2)
+            bound2 = 1e-9 * (1 + nr2) if exact else 3 * tol * nr2 + 1e-13 * (1 + nr2)
+            if res2 > bound2:
+                return {"what": f"after use, the loss rescaled by {how} {c_} has a prox that does not solve the system with the new scale {s2}",
+                        "residual": float(res2), "bound": float(bound2), "x": G.il(x2, cplx).tolist(),
+                        "solution": G.il(np.linalg.solve(lhs2, rhs2), cplx).tolist()}
         return None
 
     return oracle
@@ -494,8 +549,12 @@ def run_sql2_case(ctx, model, scico, case, oracle):
     rhs_norm = float(np.linalg.norm(np.asarray(b2fs(case["v"])) + c * (AR.T @ (wr * np.asarray(b2fs(case["y"]))))))
     tol = 1e-11 if case["tight"] else 1e-5
     exact = kind in ("ident", "sid", "diag")
-    bound = (1e-9 if exact else 20 * tol) * (1 + rhs_norm)
+    # CG stops when norm(r) <= tol*norm(b): the bound is *relative* to the right-hand side (plus rounding of the
+    # residual recurrence); the closed form is exact up to rounding
+    bound = 1e-9 * (1 + rhs_norm) if exact else 3 * tol * rhs_norm + 1e-13 * (1 + rhs_norm)
     ctx.count("sql2:closed form" if exact else ("sql2:cg tight" if case["tight"] else "sql2:cg default tol"))
+    if case.get("small"):
+        ctx.count("sql2:small-magnitude data")
     if not float(np.linalg.norm(res)) <= bound:
         ctx.disagree("sql2.system", case, float(np.linalg.norm(res)), bound, oracle=oracle,
                      note="residual of (I+2 a lam A^H W A)x - (v+2 a lam A^H W y) at the returned x")
@@ -505,6 +564,34 @@ def run_sql2_case(ctx, model, scico, case, oracle):
     want = 2 * b2f(case["scale"]) * (AR.T @ (wr * (AR @ G.il(np.asarray(z), cplx))))
     if hz[0] != "ok" or not _same_arr(hz[1], want):
         ctx.disagree("sql2.hessian", case, list(hz) if hz[0] != "ok" else np.asarray(hz[1]).tolist(), want.tolist(), oracle=oracle)
+    # ---- the same loss rescaled *after* it has been used (c*L, L/c, L.set_scale(c)) ----
+    if case.get("rescale"):
+        how, cb = case["rescale"]
+        c_ = b2f(cb)
+        if how == "mul":
+            L2, s2 = c_ * L, b2f(case["scale"]) * c_
+        elif how == "div":
+            L2, s2 = L / c_, b2f(case["scale"]) / c_
+        else:
+            L.set_scale(c_)
+            L2, s2 = L, c_
+        ctx.count("sql2:rescaled after use (" + how + ")")
+        x2 = _impl(lambda: G.il(np.asarray(L2.prox(v, lam)), cplx))
+        if x2[0] != "ok":
+            ctx.disagree("sql2.rescaled.prox", case, list(x2), "ok", oracle=oracle)
+            return
+        res2 = np.asarray(b2fs(model.call("sql2res", scale=f2b(s2), lam=case["lam"], A=[fs2b(r) for r in AR], ncols=AR.shape[1],
+                                          w=fs2b(wr), y=case["y"], v=case["v"], x=fs2b(x2[1]))))
+        rhs2 = float(np.linalg.norm(np.asarray(b2fs(case["v"])) + 2 * s2 * lam * (AR.T @ (wr * np.asarray(b2fs(case["y"]))))))
+        bound2 = 1e-9 * (1 + rhs2) if exact else 3 * tol * rhs2 + 1e-13 * (1 + rhs2)
+        if not float(np.linalg.norm(res2)) <= bound2:
+            ctx.disagree("sql2.rescaled.system", case, float(np.linalg.norm(res2)), bound2, oracle=oracle,
+                         note=f"after {how} by {c_}: residual of the documented system with the new scale {s2}")
+        hz2 = _impl(lambda: G.il(np.asarray(L2.hessian(z)), cplx))
+        want2 = 2 * s2 * (AR.T @ (wr * (AR @ G.il(np.asarray(z), cplx))))
+        if hz2[0] != "ok" or not _same_arr(hz2[1], want2):
+            ctx.disagree("sql2.rescaled.hessian", case, list(hz2) if hz2[0] != "ok" else np.asarray(hz2[1]).tolist(), want2.tolist(),
+                         oracle=oracle, note=f"after {how} by {c_}")
 
 
 # --------------------------------------------------------------------------
@@ -585,6 +672,15 @@ def correspond(ctx, model):
         run_tree_case(ctx, model, scico, case, oracle, "translate")
     for _ in range(ctx.n(80, 800)):
         run_sql2_case(ctx, model, scico, gen_sql2_case(ctx), soracle)
+    for _ in range(ctx.n(25, 250)):
+        run_sql2_case(ctx, model, scico, gen_sql2_small_case(ctx), soracle)
+    for _ in range(ctx.n(40, 400)):
+        case = G.gen_rescale_chain_case(ctx.rng)
+        shape = G.norm_shape(case["shape"])
+        case["x"] = G.random_arg_json(ctx.rng, shape, case["cplx"])
+        case["v"] = G.random_arg_json(ctx.rng, shape, case["cplx"])
+        case["lam"] = f2b(G.pos_dyadic(ctx.rng))
+        run_tree_case(ctx, model, scico, case, oracle, "rescale-chain")
     run_moreau(ctx, scico)
 
 
